@@ -15,6 +15,10 @@ What is read (fail closed on any other shape):
                                      CustomMode.create_params)              -> cf_dask_custom_scalar_is_placeholder
                                      columns addressed by label (custom_data[idx]) or by position
                                      (custom_data.iloc[:, idx])                         -> cf_dask_custom_positional
+    ProductMode.create_params        all_steps = {step.key: list(step) ...} or list(dict.fromkeys(step))
+                                                                                        -> cf_dask_product_dedup
+    SequentialMode.create_params     rows zipped from the value lists, or built from get_parameters_item(processor)
+                                                                                        -> cf_dask_sequential_rows
   observation.py
     _get_short_dimension_names_new   readout-time special case, short(), `freq > 1`, fallback for shared names,
                                      and whether names that are still shared are replaced by the full key
@@ -246,12 +250,50 @@ def _custom_dims(tree) -> bool:
     fail(c, "_add_custom_parameters: unknown dimensions of a vector-valued parameter")
 
 
+def _product_create_params(tree) -> bool:
+    """-> cf_dask_product_dedup"""
+    fn = find_func(tree, "create_params", "ProductMode")
+    vals = []
+    for n in ast.walk(fn):
+        tgt = n.target if isinstance(n, ast.AnnAssign) else (n.targets[0] if isinstance(n, ast.Assign) and len(n.targets) == 1 else None)
+        if isinstance(tgt, ast.Name) and tgt.id == "all_steps":
+            vals.append(n.value)
+    if len(vals) != 1 or not isinstance(vals[0], ast.DictComp) or len(vals[0].generators) != 1:
+        fail(fn, "ProductMode.create_params: expected all_steps = {step.key: <values> for step in self.enabled_steps}")
+    c = vals[0]
+    g = c.generators[0]
+    if not (isinstance(g.target, ast.Name) and _u(g.iter) == "self.enabled_steps" and not g.ifs
+            and _u(c.key) == f"{g.target.id}.key"):
+        fail(c, "ProductMode.create_params: unknown all_steps")
+    v = _u(c.value)
+    if v == f"list({g.target.id})":
+        return False
+    if v == f"list(dict.fromkeys({g.target.id}))":
+        return True
+    fail(c, "ProductMode.create_params: unknown value list")
+
+
+def _sequential_create_params(tree) -> bool:
+    """-> cf_dask_sequential_rows"""
+    fn = find_func(tree, "create_params", "SequentialMode")
+    args = [a.arg for a in fn.args.args] + [a.arg for a in fn.args.kwonlyargs]
+    calls = [_u(n) for n in ast.walk(fn) if isinstance(n, ast.Call)]
+    zipped = [c for c in calls if c.startswith("zip(*all_steps.values()")]
+    rows = [c for c in calls if c.startswith("self.get_parameters_item(")]
+    if zipped and not rows and args == ["self", "dim_names"]:
+        return False
+    if rows and not zipped and "processor" in args and all("processor" in c for c in rows):
+        return True
+    fail(fn, "SequentialMode.create_params: neither zip(*all_steps.values()) nor rows from get_parameters_item(processor)")
+
+
 def render(flags) -> str:
     b = " ".join("true" if f else "false" for f in flags)
     return (HEADER +
             "From PyxelV Require Import Model.ParamSpace.\n"
             "(* cf_name_fallback_full cf_name_stage3 cf_custom_dims_distinct cf_custom_range_optional "
-            "cf_dask_custom_positional cf_dask_custom_scalar_is_placeholder *)\n"
+            "cf_dask_custom_positional cf_dask_custom_scalar_is_placeholder cf_dask_product_dedup "
+            "cf_dask_sequential_rows *)\n"
             f"Definition src_cfg : cfg := mkCfg {b}.\n")
 
 
@@ -265,9 +307,11 @@ def translate(repo: Path) -> str:
     dims_distinct = _custom_dims(obs)
     range_optional = _custom_build(misc)
     positional, by_placeholder = _convert_custom_data(misc)
-    return render((fallback_full, stage3, dims_distinct, range_optional, positional, by_placeholder))
+    dedup = _product_create_params(misc)
+    seq_rows = _sequential_create_params(misc)
+    return render((fallback_full, stage3, dims_distinct, range_optional, positional, by_placeholder, dedup, seq_rows))
 
 
 # the text for the unchanged tree (after the round-2 repairs); only used to keep a model available for the
 # failing-input search when the translation itself fails
-FALLBACK = render((True, True, True, True, True, True))
+FALLBACK = render((True, True, True, True, True, True, False, False))
